@@ -154,6 +154,7 @@ def main(argv=None):
     samples = []
     functions = set()
     kf_reproduced = []
+    canary_code_errors = []
     for r in res:
         for f in r.get('functions') or []:
             functions.add(f)
@@ -189,6 +190,10 @@ def main(argv=None):
                 canaries += 1
             elif r['status'] == 'out-of-reach':
                 pass
+            elif r['status'] == 'error' and (r.get('bounded') or {}).get('found'):
+                # the traced real code itself fails on the canary's scenario (natively too): not a vacuity problem of
+                # the checker -- the ordinary obligations on the same code report it
+                canary_code_errors.append(r['oid'])
             else:
                 faults.append('canary %s not refuted+replayed (status %s)' % (r['oid'], r['status']))
             continue
@@ -254,7 +259,7 @@ def main(argv=None):
     for line in viol:
         print(line)
     wall = time.time() - t0
-    if canaries == 0 and not a.only:
+    if canaries == 0 and not a.only and not (canary_code_errors and viol):
         faults.append('no canary was refuted and replayed in this run (vacuity guard)')
         print('CHECKER-FAULT: no canary refuted+replayed')
     if n_obl + len(kf_lines) + len(bounded_runs) == 0:
